@@ -76,9 +76,10 @@ def warm():
 
 
 # ------------------------------------------------------------------------------------------------ generation
+QQ_EXTS = ["qqlog", "qqpdf", "qqcsv", "qqhtml", "qqhtm", "qqjson"]
 STEMS = ["report", "a b", "", ".", "..", "x.y", "ünï", "日本", "con", " lead", "trail ", "a.tar", "file.docx", "UPPER", "-dash", "%41", "q?x=1", "h#frag",
          "semi;colon", "tab\tname", "nl\nname", "*"]
-DIRS = ["", "dir/", "/abs/dir/", "a\\b\\", "./", "../", "dir.d/", "dir.docx/", "C:\\Users\\x\\", "~/", "http://host/path/", "https://h.example/a.pdf/",
+DIRS = ["", "dir/", "data: text/html,", "data:Text/Plain;charset=utf-8,", "/abs/dir/", "a\\b\\", "./", "../", "dir.d/", "dir.docx/", "C:\\Users\\x\\", "~/", "http://host/path/", "https://h.example/a.pdf/",
         "file:///tmp/", "archive.zip!/", "archive.zip!/sub/", "data:text/plain,", "//server/share/", "d i r/", "nightly.tar.gz.extracted/", "site.TAR.XZ.d/",
         "x.tar.bz2.unpacked/sub/", "dump.tar.gz."]
 TAILS = ["", "", "", "", "/", "/.", " ", ".", "?x=1", "#frag", "?download=1&name=a.pdf", "\\", "\n", ";", ":", "~", ".bak"]
@@ -108,6 +109,8 @@ def _gen_path(rng) -> dict:
     elif src == "near":
         base = rng.choice(sorted(DOCUMENTED))
         ext = rng.choice([base + "x", base[:-1], "x" + base, base + "~", base + " ", base + ".", base.replace(".", ""), base + ".txt", "tar." + base, base + "/x"])
+    elif src == "random" and rng.random() < 0.4:
+        ext = rng.choice(QQ_EXTS)  # extensions only a hostile MIME database knows (see HOSTILE)
     elif src == "random":
         ext = "".join(rng.choice("abcdxyz0179_-") for _ in range(rng.randrange(1, 6)))
     else:
@@ -124,7 +127,10 @@ def _gen_path(rng) -> dict:
 
 HOSTILE = [("application/pdf", ".docx"), ("text/plain", ".exe"), ("application/zip", ".txt"), ("text/html", ".pdf"), ("application/msword", ".xyz"),
            ("application/pdf", ".unknownext"), ("message/rfc822", ".html"), ("application/x-tar", ".doc"), ("text/csv", ".bin"), ("text/plain", ""),
-           ("application/vnd.ms-excel", ".docx "), ("application/json", ".tar.gz"), ("text/plain", ".gz"), ("application/epub+zip", ".zip")]
+           ("application/vnd.ms-excel", ".docx "), ("application/json", ".tar.gz"), ("text/plain", ".gz"), ("application/epub+zip", ".zip"),
+           # non-canonical spellings a hand-edited mime.types may hold: only an exact key may count, in both entry points alike
+           ("Text/Plain", ".qqlog"), ("application/PDF", ".qqpdf"), ("text/csv; charset=utf-8", ".qqcsv"), (" text/html", ".qqhtml"), ("TEXT/HTML ", ".qqhtm"),
+           ("application/json;q=1", ".qqjson")]
 
 
 def gen_case(rng: random.Random, tier: str) -> dict:
